@@ -63,7 +63,10 @@ func (g *gen) judgeOps(ops []top, idx uint64) []opVerdict {
 	}
 	out := make([]opVerdict, len(ops))
 	for k, op := range ops {
-		if op.oc != nil {
+		if op.oc != nil && op.oc.judge != nil {
+			m, pre := op.oc.judge(rep)
+			out[k] = opVerdict{cond: true, matched: m, typ: op.oc.typ, pre: pre}
+		} else if op.oc != nil {
 			pre := op.oc.read(rep)
 			out[k] = opVerdict{cond: true, matched: wantMatch(op.oc.rule, pre, op.oc.cidx), typ: op.oc.typ, pre: pre, cidx: op.oc.cidx}
 		}
@@ -187,6 +190,12 @@ func (g *gen) exec(c cmd) (resS, resF string) {
 				}
 			}
 		}
+		// invariant behind the lock condition: a key is only ever held by a session that exists
+		for _, r := range st.VerifC10Rows("kvs") {
+			if e := r.(*structs.DirEntry); e.Session != "" && !sessionExists(st, e.Session) {
+				run.Violate("kv:lock-held-by-missing-session", fmt.Sprintf("world %s, after %q: key %q is held by session %s which does not exist", w.tag, line, e.Key, e.Session), append([]string(nil), g.ops...))
+			}
+		}
 		if c.multi && (strings.HasPrefix(res, "txn-err") || strings.HasPrefix(res, "err:")) {
 			run.Tag("multi:aborted")
 			if before != fullDump(st) {
@@ -274,7 +283,7 @@ func single(t top, c *cond) cmd { x := txnCmd(t); x.cond = c; return x }
 func kvDrivers(k string) []drv {
 	read := readKV(k)
 	want := func(i int) func(ent) (string, string) {
-		return func(ent) (string, string) { return fmt.Sprintf("%s/%d", kvVals[i%3], i/3), "" }
+		return func(pre ent) (string, string) { return fmt.Sprintf("%s/%d", kvVals[i%3], i/3), kvAuxAfterSet(pre) }
 	}
 	set := func(i int) cmd { return kvSetCmd(k, kvVals[i%3], uint64(i/3)) }
 	del := func() cmd { return kvDelCmd(k) }
